@@ -114,10 +114,12 @@ def runCollect (c : Case) : String :=
      (operator_combining.go:244-318): one composite subscription holding the sources in
      subscription order.
    * `leak` probe |> op for the operators that own a goroutine or a timer (go/harness/leak.go):
-     `ObserveOn` (detachOn, operator_utility.go:647-650: `subscriptions.Unsubscribe(); stop()`) and
-     `ThrowOnContextCancel` (operator_context.go:295-298: `sub.Unsubscribe(); close(done)`) release
-     their goroutine (id 90) in the same closure, after the upstream `Unsubscribe`, unisolated —
-     KNOWN FINDING C03: a panicking upstream teardown leaves the goroutine blocked for good.
+     `ObserveOn` (detachOn, operator_utility.go:647-653: `defer stop(); subscriptions.Unsubscribe()`),
+     `ThrowOnContextCancel` (operator_context.go:295-301: `defer close(done); sub.Unsubscribe()`) and
+     `ToChannel` (operator_sink.go: `defer closeChan(); subscriptions.Unsubscribe()`) release their
+     goroutine / channel (id 90) in a DEFERRED action of the teardown closure since fix 694a874: it
+     runs even when a teardown upstream panics (before the fix it followed the upstream
+     `Unsubscribe` unisolated and was skipped: `Fin.closure`, RoProofs/CutIn `closure_skips_witness`).
   When the stream ends by the source's own terminal (`end=complete|error`) the subscription that is
   unsubscribed is the probe's own subscriber (subscriber.go:218, 240), caller: the emitting source. -/
 
@@ -125,8 +127,8 @@ def setupTree (setup : String) (ending : String) (op : String := "") : Option (L
   let l (i : Nat) : Fin := .leaf i none
   match setup, ending == "unsub" with
   | "leak", true =>
-    if op == "ObserveOn" then some [.closure [.sub [.sub [l 1]], l 90]]
-    else if op == "ThrowOnContextCancel" then some [.closure [.sub [l 1], l 90]]
+    if op == "ObserveOn" || op == "ToChannel" then some [.deferred (.sub [.sub [l 1]]) [90]]
+    else if op == "ThrowOnContextCancel" then some [.deferred (.sub [l 1]) [90]]
     else some [.sub [l 1], l 90]
   | "plain", true => some [.sub [l 1]]
   | "plain", false => some [l 1]
